@@ -70,8 +70,8 @@ func AsArray(v Value) (Array, bool) {
 }
 
 func asArray(values ...Value) Array {
-	minIndex := math.MaxInt32
-	maxIndex := math.MinInt32
+	minIndex := math.MaxInt
+	maxIndex := math.MinInt
 	for _, v := range values {
 		t := v.(ArrayItemTuple)
 		if t.at < minIndex {
